@@ -640,8 +640,10 @@ func (this *Writer) processBlock() error {
 	if nbTasks > 1 {
 		// Limit the number of jobs if there are fewer blocks that this.jobs
 		// It allows more jobs per task and reduces memory usage.
+		// The input size is only a hint: never use fewer tasks than buffered blocks
 		if this.nbInputBlocks > 0 {
-			nbTasks = min(nbTasks, this.nbInputBlocks)
+			nbBlocks := (this.available + this.blockSize - 1) / this.blockSize
+			nbTasks = min(nbTasks, max(this.nbInputBlocks, nbBlocks))
 		}
 
 		jobsPerTask, _ = internal.ComputeJobsPerTask(make([]uint, nbTasks), uint(this.jobs), uint(nbTasks))
